@@ -96,6 +96,8 @@ func scenarios() []scenario {
 		{name: "3keys-rf1-uneven-of4", rf: 1, ninst: 4, keys: []keySpec{{[]string{"A"}, 0}, {[]string{"B"}, 0}, {[]string{"A"}, 0}}},
 		{name: "3keys-rf1-uneven-of8", rf: 1, ninst: 8, keys: []keySpec{{[]string{"B"}, 0}, {[]string{"A"}, 0}, {[]string{"B"}, 0}}},
 		{name: "2keys-2rep-m0", keys: []keySpec{{[]string{"A", "B"}, 0}, {[]string{"A", "B"}, 0}}},
+		// a replica set smaller than the ring's replication factor (RF 5, one instance missing): quorum 3 of 4, one failure tolerated
+		{name: "1key-4rep-m1-rf5", big: true, rf: 5, ninst: 4, keys: []keySpec{{[]string{"A", "B", "C", "D"}, 1}}},
 	}
 	if ev.Thorough() {
 		base = append(base,
@@ -108,6 +110,9 @@ func scenarios() []scenario {
 	var out []scenario
 	for _, s := range base {
 		out = append(out, s)
+		if len(s.keys) == 1 && s.rf > len(s.keys[0].replicas) && s.ninst == len(s.keys[0].replicas) {
+			continue // the under-replicated set: the plain variant is what it is there for (keeps the quick tier small)
+		}
 		h := s
 		h.name += "+hold"
 		h.hold = true
